@@ -60,6 +60,8 @@ struct Adv<'a> {
     ctx6: Ctx6,
     /// the device sometimes has few or no free transmit slots during a call (a third of the runs)
     bp: bool,
+    /// the frame just generated is an MLD general query (the application may leave its group before the report is due)
+    mld_general_query: bool,
 }
 
 fn hexs(b: &[u8]) -> String {
@@ -127,6 +129,11 @@ impl<'a> Adv<'a> {
             if let Some(p) = &pkt {
                 let s = p.summary();
                 self.log(|| format!("V tx {}", s));
+                if let Some((_, i)) = p.icmp6() {
+                    if i.typ == 143 {
+                        self.stats.inc(if i.rest[2] == 0 && i.rest[3] == 0 { "adv.mld-reports-without-records" } else { "adv.mld-reports" });
+                    }
+                }
                 // learn what a real peer would learn
                 if let Some((_, t)) = p.tcp() {
                     if let Some(e) = &mut self.tcp_est {
@@ -410,7 +417,7 @@ fn gen_ip(a: &mut Adv) -> (Vec<u8>, bool) {
                 // multicast address at all - the victim's own unicast address
                 let mut body = vec![0u8; 16];
                 match a.tape.draw(5) {
-                    0 => {}
+                    0 => a.mld_general_query = true,
                     1 => {
                         body[0] = 0xff;
                         body[1] = 2;
@@ -436,7 +443,11 @@ fn gen_ip(a: &mut Adv) -> (Vec<u8>, bool) {
                     }
                     _ => v,
                 };
-                let m = enc_icmp(true, &p, &dst, 130, 0, [(a.tape.draw(65536) >> 8) as u8, a.tape.draw(256) as u8, 0, 0], &body);
+                // (a querier's source address is link-local, whatever addresses the link otherwise uses; the response
+                // delay is often short so that the report falls due within the run)
+                let p = if a.tape.draw(4) != 0 { IpAddr::V6([0xfe, 0x80, 0, 0, 0, 0, 0, 0, 0, 0, 0, 0, 0, 0, 0, 2]) } else { p };
+                let code: [u8; 2] = if a.tape.draw(2) == 0 { [0, a.tape.draw(256) as u8] } else { [(a.tape.draw(65536) >> 8) as u8, a.tape.draw(256) as u8] };
+                let m = enc_icmp(true, &p, &dst, 130, 0, [code[0], code[1], 0, 0], &body);
                 // hop-by-hop router alert in front
                 let mut pl = vec![P_ICMP6, 0, 5, 2, 0, 0, 1, 0];
                 pl.extend_from_slice(&m);
@@ -931,7 +942,9 @@ pub fn run(tape: &mut Tape, props: Props, thorough: bool, trace_on: bool, force:
             let _ = node.iface.join_multicast_group(smoltcp::wire::Ipv4Address::new(224, 0, 0, 66));
         }
     }
-    if medium == Medium::Ethernet && tape.draw(2) == 0 {
+    // (on Ethernet the interface is also a member of its solicited-node groups; on the other media this is its only
+    // IPv6 group)
+    if tape.draw(2) == 0 {
         let _ = node.iface.join_multicast_group(smoltcp::wire::Ipv6Address::new(0xff02, 0, 0, 0, 0, 0, 0, 0x42));
     }
     // 6LoWPAN address contexts (context-based compression modes index into this table with a 4-bit identifier
@@ -948,7 +961,7 @@ pub fn run(tape: &mut Tape, props: Props, thorough: bool, trace_on: bool, force:
         }
     }
     let desc = format!("adversary medium={:?} mtu={} slaac={} csum={:?} 6lowpan-contexts={}", medium, mtu, slaac, cfg.csum, ctx6.len());
-    let mut a = Adv { tape, props, node, view, medium, now: 1_000_000, stats: Stats::default(), hash: LogHash::new(), trace: vec![], trace_on, events: 0, v4, v6a, p4: IpAddr::V4([10, 0, 0, 2]), p6, seqno: 0, tcp_est: Some((40000, 81, 0, 0)), dns_q: vec![], dhcp_xid: None, history: vec![], h_tcp_conn, ctx6, bp: false };
+    let mut a = Adv { tape, props, node, view, medium, now: 1_000_000, stats: Stats::default(), hash: LogHash::new(), trace: vec![], trace_on, events: 0, v4, v6a, p4: IpAddr::V4([10, 0, 0, 2]), p6, seqno: 0, tcp_est: Some((40000, 81, 0, 0)), dns_q: vec![], dhcp_xid: None, history: vec![], h_tcp_conn, ctx6, bp: false, mld_general_query: false };
     a.bp = a.tape.draw(3) == 0;
     let r = body(&mut a, thorough, h_udp, h_dns);
     let nontrivial = a.stats.get("adv.frames") >= 10 && a.stats.get("adv.mutated") >= 1;
@@ -1126,6 +1139,16 @@ fn body(a: &mut Adv, thorough: bool, h_udp: SocketHandle, h_dns: SocketHandle) -
         }
         let single = a.tape.draw(2) == 0;
         let out = a.deliver(frame, single)?;
+        // right after an MLD general query the application sometimes leaves its group: the report that falls due a
+        // little later may have nothing to say
+        if std::mem::take(&mut a.mld_general_query) && a.tape.draw(2) == 0 {
+            let iface = &mut a.node.iface;
+            let _ = guard("leave_multicast_group", || iface.leave_multicast_group(smoltcp::wire::Ipv6Address::new(0xff02, 0, 0, 0, 0, 0, 0, 0x42)))?;
+            a.stats.inc("adv.group-left-after-a-general-query");
+            a.poll()?;
+            a.now += *a.tape.pick(&[1_000i64, 300_000, 5_000_000, 70_000_000]);
+            a.poll()?;
+        }
         // a plausible peer answers the victim's SYN (so that the connecting socket gets established)
         for p in out.iter().flatten() {
             if let Some((ip, t)) = p.tcp() {
